@@ -221,7 +221,7 @@ def oracle(case: dict) -> Outcome:
     cl.append(f"entry_order_{order}")
     for r in (A,):
         fin = r.finish()
-        cl.extend(c for c in fin.classes if c.startswith(("graft_", "precond_", "multi_group", "ignored_dims", "block_order0", "momentum", "mask_change", "all_absent", "split", "merged")))
+        cl.extend(c for c in fin.classes if c.startswith(("graft_", "precond_", "multi_group", "ignored_dims", "block_order0", "momentum", "mask_change", "all_absent", "split", "merged", "frozen_", "library_loggers", "mixed_param")))
     if any(len(rm.walk(A.opt.state[p].get(k2, {}).get("shampoo", {}) if isinstance(A.opt.state[p].get(k2), dict) else {})) == 0
            for p in A.all_params() for k2 in A.opt.state[p] if isinstance(k2, str) and k2.startswith("block_")):
         cl.append("block_without_kronecker_factor")
